@@ -204,24 +204,28 @@ Definition next_key (p : parser) (z2 : lx) (c : Z) (need : bool) : option (unit_
                 mkP (snd sh) st' (perr p) need (prd p))
         else None.
 
-(* the final else block: a string, number or literal value *)
-Definition next_value (p : parser) (z2 : lx) (c state : Z) : option (unit_ * parser) :=
+(* the final else block: a string, number or literal value.  needComma and the state are updated only
+   when a value has been consumed (gt != ErrorGrammar) *)
+Definition emit_value (p : parser) (g : Z) (z : lx) (state : Z) : option (unit_ * parser) :=
   st' <- (if state =? S_ObjectValue then set_top (pst p) S_ObjectKey else Some (pst p)) ;;
+  emit p g z st' true.
+
+Definition next_value (p : parser) (z2 : lx) (c : Z) (need : bool) (state : Z) : option (unit_ * parser) :=
   sr <- (if c =? 34 then consume_string z2 else Some (false, z2)) ;;
-  if fst sr then emit p G_String (snd sr) st' true
+  if fst sr then emit_value p G_String (snd sr) state
   else
     nr <- consume_number (snd sr) ;;
-    if fst nr then emit p G_Number (snd nr) st' true
+    if fst nr then emit_value p G_Number (snd nr) state
     else
       lr <- consume_literal (snd nr) ;;
-      if fst lr then emit p G_Literal (snd lr) st' true
+      if fst lr then emit_value p G_Literal (snd lr) state
       else
         let z6 := snd lr in
         c6 <- pk z6 0 ;;
-        if (c6 =? 0) && negb (r_err p z6) then fail_at p z6 st' true     (* unexpected NULL *)
+        if (c6 =? 0) && negb (r_err p z6) then fail_at p z6 (pst p) need   (* unexpected NULL *)
         else if c6 =? 0 then
-          Some ((G_Error, None), mkP z6 st' (perr p) true (prd p))      (* EOF: p.err untouched *)
-        else fail_at p z6 st' true.                                      (* unexpected character *)
+          Some ((G_Error, None), mkP z6 (pst p) (perr p) need (prd p))    (* EOF: p.err untouched *)
+        else fail_at p z6 (pst p) need.                                    (* unexpected character *)
 
 (* Next after the comma block: z1 = cursor, c = Peek(0), need = needComma, state = the state read on entry *)
 Definition next_body (p : parser) (z1 : lx) (c : Z) (need : bool) (state : Z) : option (unit_ * parser) :=
@@ -239,7 +243,7 @@ Definition next_body (p : parser) (z1 : lx) (c : Z) (need : bool) (state : Z) : 
     if negb (state =? S_Array) then fail_at p z2 (pst p) true      (* unexpected right bracket *)
     else st' <- pop_fix (pst p) ;; emit p G_EndArray (mv z2 1) st' true
   else if state =? S_ObjectKey then next_key p z2 c need
-  else next_value p z2 c state.
+  else next_value p z2 c need state.
 
 Definition next (p : parser) : option (unit_ * parser) :=
   z0 <- move_ws (pz p) ;;
